@@ -78,8 +78,13 @@ PLANS = {
     },
     "C04": lambda tier: {
         "level": "exploration",
-        "stages": [main_stage(40, 300, tier)],
-        "require": ["lookups_with_matches", "exact_lookups", "trie_accesses_seen_by_hook", "word_id_table_accesses_seen_by_hook"],
+        "stages": [main_stage(40, 300, tier, death_is_violation=True),
+                   main_stage(60, 120, tier, build="valgrind", name="valgrind", death_is_violation=True, shards=8)]
+                  + ([] if tier == "quick" else [
+                      main_stage(60, 300, tier, build="asan", name="asan", death_is_violation=True),
+                      dict(main_stage(60, 900, tier, build="miri", name="miri"), shards=16)]),
+        "require": ["lookups_with_matches", "exact_lookups", "trie_accesses_seen_by_hook", "word_id_table_accesses_seen_by_hook",
+                    "valgrind.lookups_with_matches"],
         "rule": "seeded dictionary stacks (system + 0..14 user layers; keys sharing prefixes, prefix chains, 2-127 homographs, astral / "
                 "single-byte keys, non-indexed rows, bulk lexicons of 100-4000 keys, thorough: 20k-70k keys so word-id-table offsets cross "
                 "255 and 65535; loaded aligned and from an odd address) x texts x EVERY byte offset (also inside characters): the multiset "
@@ -90,7 +95,8 @@ PLANS = {
     },
     "C05": lambda tier: {
         "level": "exploration",
-        "stages": [main_stage(40, 300, tier)],
+        "stages": [main_stage(40, 300, tier)] + ([] if tier == "quick" else [
+            dict(main_stage(60, 900, tier, build="miri", name="miri"), shards=16)]),
         "require": ["fields_compared", "matrix_cells_compared", "recompilations_compared", "loads_at_other_alignment"],
         "rule": "seeded lexicons (homographs, non-indexed rows, differing headword/reading/normalised forms, dictionary-form references, "
                 "numeric and inline A/B split references, word structure, 0-127 synonym ids, \\u escapes, strings of 1/126/127/128/129/255/256/"
